@@ -4,7 +4,7 @@
 NOT part of the verification framework.  It records, as exact string replacements, the minimal
 source changes that were tried on a scratch copy of Microsoft/Recognizers-Text during the design
 phase (with all of them applied, together with regenerated resources, the repository's own spec
-suite passes: 14914 passed, 0 failed, F1-F12 together).  Each FIX entry is meant to become ONE separate commit in
+suite passes: 14914 passed, 0 failed, F1-F14 together).  Each FIX entry is meant to become ONE separate commit in
 /repo whose message starts with "fix:".
 
 usage:  planned_fixes.py <path-to-Python/libraries> [F2 F3 ...]
@@ -151,6 +151,30 @@ FIXES = {
          "                c, str_length - i, i, has_single_separator, prev_char, non_decimal_separator)\n",
          "                c, str_length - i, i - sign_offset, has_single_separator, prev_char, non_decimal_separator)\n"),
     ],
+    # C01/C12 (zh-cn date-time): ChineseMergedExtractor.add_mod widened entities whenever a modifier word
+    # occurred ANYWHERE later in the text (ConditionalMatch objects are always truthy; .success was never
+    # checked) and rebuilt the text with the length used as END index -> negative starts, ends beyond the
+    # query, empty or shifted texts, overlapping entities (205 deviations in 11,000 noise calls, 12 corpus inputs)
+    'F13': [
+        ('recognizers-date-time/recognizers_date_time/date_time/chinese/merged_extractor.py',
+         "            if match:\n", "            if match and match.success:\n", 6),
+        ('recognizers-date-time/recognizers_date_time/date_time/chinese/merged_extractor.py',
+         "source[extract_result.start:extract_result.length + 1]",
+         "source[extract_result.start:extract_result.start + extract_result.length]", 2),
+        ('recognizers-date-time/recognizers_date_time/date_time/chinese/merged_extractor.py',
+         "source[extract_result.start:extract_result.length]",
+         "source[extract_result.start:extract_result.start + extract_result.length]", 4),
+    ],
+    # C11 (zh-cn): a 24-hour time without day description got the am/pm comment, so the merged parser
+    # added 12 hours: '十五点七' -> values 15:07:00 and 27:07:00
+    'F14': [
+        ('recognizers-date-time/recognizers_date_time/date_time/chinese/time_parser.py',
+         "        if no_desc:\n"
+         "            result.comment = 'ampm'\n",
+         "        if no_desc:\n"
+         "            if 0 < time_result.hour <= 12:\n"
+         "                result.comment = 'ampm'\n"),
+    ],
 }
 # F1 (C18/C19) is not a text replacement: run the repository's own resource generator
 # (Python/libraries/resource-generator/index.py, ruamel.yaml) for the five packages and commit the
@@ -161,14 +185,16 @@ FIXES = {
 
 def apply(root, names):
     for name in names:
-        for rel, old, new in FIXES[name]:
+        for entry in FIXES[name]:
+            rel, old, new = entry[:3]
+            expected = entry[3] if len(entry) > 3 else 1
             path = os.path.join(root, rel)
             with open(path, encoding='utf-8', newline='') as f:
                 text = f.read()
             eol = '\r\n' if '\r\n' in text else '\n'
             o, n = old.replace('\n', eol), new.replace('\n', eol)
-            if text.count(o) != 1:
-                raise SystemExit(f'{name}: expected exactly one occurrence in {rel}, found {text.count(o)}')
+            if text.count(o) != expected:
+                raise SystemExit(f'{name}: expected {expected} occurrence(s) in {rel}, found {text.count(o)}')
             with open(path, 'w', encoding='utf-8', newline='') as f:
                 f.write(text.replace(o, n))
         print('applied', name)
